@@ -456,6 +456,10 @@ class Type3Tag(nfc.tag.Tag):
                 nbw -= 1
                 break
 
+        if nbr == 0 or nbw == 0:
+            log.warning("failed to read or write even a single data block")
+            return False
+
         # Tags with more than 4K memory require 3-byte block number
         # format. This reduces the maximum number of blocks in write.
         if nbw == 13 and nmaxb > 255:
